@@ -454,3 +454,71 @@ func verifTickerDuration(x float64) {
 //@   only ticker-duration-positive
 //@   requires s != nil && intervalOK(s.RevisedPublishingInterval)
 //@   assigns *
+
+// ---------------------------------------------------------------------------
+// C33 / C29: NodeNameSpace.Browse, the loop that builds a browse result from a node's references.
+// Address-space invariant (built by AddRef and the node-set importer; assumed, clients cannot add
+// references): a reference has a type, and a target given as ExpandedNodeID has its NodeID.
+// What IS under the client's control and therefore arbitrary here: the browse description, and every
+// attribute of every writable node (Write stores any DataValue under any attribute id).
+// ---------------------------------------------------------------------------
+//@ pred refWF(r *ua.ReferenceDescription) := r != nil && allocated(r) && r.ReferenceTypeID != nil && (r.NodeID != nil ==> r.NodeID.NodeID != nil)
+//@ pred nodeElems(n *Node) := forall i int :: { at(n.refs, i) } off(n.refs) <= i && i < off(n.refs) + len(n.refs) ==> at(n.refs, i) != nil
+//@ pred nodeWF(n *Node) := forall i int :: { at(n.refs, i) } off(n.refs) <= i && i < off(n.refs) + len(n.refs) ==> refWF(at(n.refs, i))
+
+// a reference Browse can return at all (the encoder needs these), and one the description asks for
+//@ pred refComplete(r *ua.ReferenceDescription) := r.NodeID != nil && r.BrowseName != nil && r.DisplayName != nil && r.TypeDefinition != nil
+//@ pred refMatches(srv *Server, bd *ua.BrowseDescription, r *ua.ReferenceDescription) :=
+//@     dirOK(bd.BrowseDirection, r.IsForward) && typeOK(srv, bd.ReferenceTypeID, r.ReferenceTypeID, bd.IncludeSubtypes) &&
+//@     classOK(bd.NodeClassMask, r.NodeClass)
+
+// another namespace's lookup (interface; NodeNameSpace.Node is verified under C31)
+//@ func NameSpace.Node
+//@   props C29
+//@   assumed
+//@   params ns id
+//@   assigns nothing
+//@   ensures result != nil ==> nodeElems(result)
+
+//@ func (*Server).Node
+//@   props C29
+//@   requires srvOK(s) && nid != nil
+//@   assigns nothing
+//@   ensures [C29:wf] result != nil ==> nodeElems(result)
+
+//@ func (*Node).DataType
+//@   props C29
+//@   requires n != nil ==> nodeElems(n)
+//@   assigns nothing
+//@   loop 0 invariant -1 <= rangeindex && rangeindex < len(n.refs) && n != nil && nodeElems(n)
+//@   loop 0 decreases len(n.refs) - rangeindex
+
+// (the node lookup takes the read lock Browse already holds: read locks are re-entrant, the verifier's
+// lock state is a flag per mutex, so the call is given the lookup's verified meaning without its lock effect)
+//@ func (*NodeNameSpace).Browse
+//@   props C33 C29
+//@   bytes
+//@   let node = ns.m[ua.nodeStr(bd.NodeID)]
+//@   requires ns != nil && srvOK(ns.srv) && bd != nil && bd.ReferenceTypeID != nil
+//@   requires [space] node != nil ==> allocated(node) && nodeWF(node)
+//@   assigns held(&ns.mu), released(&ns.mu)
+//@   after "ns.Node(bd.NodeID)" assigns nothing
+//@   after "ns.Node(bd.NodeID)" ensures (bd.NodeID == nil ==> result == nil) && (bd.NodeID != nil ==> result == ns.m[ua.nodeStr(bd.NodeID)])
+//@   ensures [C29:result] result != nil
+//@   ensures [C33:unknown-node] (bd.NodeID == nil || node == nil) ==> result.StatusCode == ua.StatusBadNodeIDUnknown
+//@   ensures [C33:only-matching] bd.NodeID != nil && node != nil ==> forall j int :: { at(result.References, j) }
+//@           off(result.References) <= j && j < off(result.References) + len(result.References) ==>
+//@           at(result.References, j) != nil && refMatches(ns.srv, bd, at(result.References, j))
+//@   ensures [C33:at-most-one-each] bd.NodeID != nil && node != nil ==> len(result.References) <= len(node.refs)
+//@   canary ensures [C33:canary-returns-every-reference] bd.NodeID != nil && node != nil ==> len(result.References) == len(node.refs)
+//@   loop 0 invariant -1 <= rangeindex && rangeindex < len(n.refs) && n != nil && n == node
+//@   loop 0 invariant ns != nil && bd != nil && bd.ReferenceTypeID != nil
+//@   loop 0 invariant [srv] srvOK(ns.srv)
+//@   loop 0 invariant [space] nodeWF(n)
+//@   loop 0 invariant [old-refs] !fresh(n) && (forall i int :: { at(n.refs, i) } off(n.refs) <= i && i < off(n.refs) + len(n.refs) ==> !fresh(at(n.refs, i)))
+//@   loop 0 invariant [locked] held(&ns.mu)
+//@   loop 0 invariant [C33:only-matching] forall j int :: { at(refs, j) } off(refs) <= j && j < off(refs) + len(refs) ==>
+//@           at(refs, j) != nil && refMatches(ns.srv, bd, at(refs, j))
+//@   loop 0 invariant [C33:at-most-one-each] len(refs) <= rangeindex + 1
+//@   loop 0 invariant [own-result] fresh(refs)
+//@   loop 0 decreases len(n.refs) - rangeindex
